@@ -341,8 +341,18 @@ def o11(tier):
     return r
 
 
+def o12(tier):
+    """the receiver stores the announcing message under the epoch handed in by the dispatcher (O6: the message's own epoch), not under its current group epoch"""
+    from props import C02
+    r = C02.o2(tier)
+    r.oid = 'O12'
+    r.title = ('receiver (shared with C02-O2): process_application_message records the announcing message with epoch = the epoch handed in by the dispatcher (O6: the epoch the message was '
+               'created in), not the receiver\'s current group epoch -- a receiver that processed a commit before the announcement still finds the key of the sharing epoch -- ' + r.title[:120])
+    return r
+
+
 def run(tier, seed, only=None):
-    obs = [('O1', o1), ('O2', o2), ('O3', o3), ('O4', o4), ('O5', o5), ('O6', o6), ('O7', o7), ('O8', o8), ('O9', o9), ('O10', o10), ('O11', o11)]
+    obs = [('O1', o1), ('O2', o2), ('O3', o3), ('O4', o4), ('O5', o5), ('O6', o6), ('O7', o7), ('O8', o8), ('O9', o9), ('O10', o10), ('O11', o11), ('O12', o12)]
     out = []
     for k, f in obs:
         if only and k not in only:
